@@ -48,6 +48,14 @@ PROPERTIES = {
         "thorough": [{"match": "VerifH_c05_.*", "timeout": 2400}],
         "bounds": {}, "outside": [], "assumptions": [],
     },
+    "C15": {
+        "level": "model_checking",
+        "quick": [{"match": "VerifH_c15_.*", "timeout": 600, "shards": {"VerifH_c15_downconvert": 6},
+                   "allow_unsupported": ["non-ASCII byte"]}],
+        "thorough": [{"match": "VerifH_c15_.*", "timeout": 3000, "shards": {"VerifH_c15_downconvert": 12},
+                      "allow_unsupported": ["non-ASCII byte"]}],
+        "bounds": {}, "outside": [], "assumptions": [],
+    },
     "C18": {
         "level": "model_checking",
         "quick": [{"match": "VerifH_c18_.*", "timeout": 500,
